@@ -41,6 +41,12 @@ def stmtsOfBody : List FItem → List Str → List Stmt
   | .label l :: rest, pend => stmtsOfBody rest (pend ++ [printLabel l])
   | .insn c ops :: rest, pend => ⟨pend, .insn c, ops.map ropOfOp, false⟩ :: stmtsOfBody rest []
 
+/-- labels still waiting at the end of the body: they go in front of `endfunc` -/
+def bodyPending : List FItem → List Str → List Str
+  | [], pend => pend
+  | .label l :: rest, pend => bodyPending rest (pend ++ [printLabel l])
+  | .insn _ _ :: rest, _ => bodyPending rest []
+
 def optL (n : Option Str) : List Str := n.toList
 
 def lrefRops (l1 : Nat) (l2 : Option Nat) (disp : BitVec 64) : List ROp :=
@@ -56,7 +62,7 @@ def stmtsOfFunc (f : Func) : List Stmt :=
   ++ (chunk8 f.globals.length f.globals).map
       (fun line => ⟨[], .global, line.map (fun v => .var v.1 v.2.1 (some v.2.2)), false⟩)
   ++ stmtsOfBody f.body []
-  ++ [⟨[], .endfunc, [], false⟩]
+  ++ [⟨bodyPending f.body [], .endfunc, [], false⟩]
 
 def stmtsOfItem : Item → List Stmt
   | .export n => [⟨[], .export, [.name n], false⟩]
